@@ -2214,6 +2214,7 @@ var translateList = []string{
 	"univariate.Polynomial.reslice", "univariate.Polynomial.IsZero", "univariate.Polynomial.IsOne",
 	"univariate.Polynomial.SetCoefPtr", "univariate.Polynomial.IncrementCoef", "univariate.Polynomial.DecrementCoef",
 	"univariate.Polynomial.removeCoef",
+	"univariate.Polynomial.Degrees", "univariate.Polynomial.NTerms", "univariate.Polynomial.IsMonomial",
 }
 
 func writeCode(funcs map[string]*fn, path string) {
